@@ -116,6 +116,9 @@ Drop == /\ conn /\ conn' = FALSE /\ inp' = <<>> /\ SetH(IF inp = <<>> THEN H ELS
 \* an evaluation that pushes references to g[i] (arguments, a temporary array, an efun callback) and then fails:
 \* caught or not, every temporary is dropped again
 Err(o, i) == alive[o] /\ UNCHANGED vars
+\* an evaluation that only USES g[i] and completes (spreads it as arguments, iterates over it, formats it, uses it as a
+\* mapping key, passes it through efun callbacks, ...): when it is over, nothing has changed
+Use(o, i) == alive[o] /\ UNCHANGED vars
 RECURSIVE DecAll(_, _)
 DecAll(h, s) == IF s = <<>> THEN h ELSE DecAll(Dec(h, Head(s)), Tail(s))
 SlotSeq(o) == LET RECURSIVE F(_) F(S) == IF S = {} THEN <<>> ELSE LET x == CHOOSE x \in S : TRUE IN <<slot[<<o, x>>]>> \o F(S \ {x}) IN F(Slots)
